@@ -64,7 +64,7 @@ def _ensure_palette() -> None:
 def _strategies() -> Any:
     from hypothesis import strategies as st
 
-    KINDS = (["instr"] * 11 + ["data"] * 5 + ["org"] * 2 + ["section"] * 2)
+    KINDS = (["instr"] * 10 + ["data"] * 5 + ["org"] * 2 + ["section"] * 3)
     u8 = st.one_of(st.sampled_from([0, 1, 0x7F, 0x80, 0xFF]), st.integers(0, 0xFF))
     u16 = st.one_of(st.sampled_from([0, 1, 0xFF, 0x100, 0x7FFF, 0x8000, 0xFFFF]), st.integers(0, 0xFFFF))
     u20 = st.one_of(st.sampled_from([0, 0xFFFF, 0x10000, 0x80000, 0xFFFFF]), st.integers(0, 0xFFFFF))
@@ -184,6 +184,9 @@ def _strategies() -> Any:
                 ln["own_line"] = False
                 ln["join_prev"] = True
                 paired = True
+            if ln["label"] and not ln.get("join_prev") and draw(pct) < 4:
+                # a second label on its own line in front of a labelled statement (two names for one address)
+                lines.append(deco({"label": new_label(), "own_line": True, "stmt": None}))
             lines.append(deco(ln))
             if ln.get("join_prev"):
                 ln["blank"] = 0
@@ -198,6 +201,8 @@ def _strategies() -> Any:
                 lines.append(deco({"label": new_label(), "stmt": {"t": "instr", "shape": info["template"],
                                                                   "ops": [None]}}))
                 lines.append(deco({"label": new_label(), "stmt": {"t": "instr", "shape": "RET", "ops": []}}))
+        if draw(pct) < 15:
+            lines.append(deco({"label": new_label(), "own_line": True, "stmt": None}))  # trailing `end:` label
         unstable: set = set()
         if f_orgsym and anchor:
             lines.append(deco({"label": None, "stmt": {"t": "section", "name": code_name,
@@ -312,6 +317,7 @@ def _features(prog: Dict[str, Any]) -> Tuple[List[str], bool]:
     for i, ln in enumerate(lines):
         stmt = ln.get("stmt")
         if not stmt:
+            labels.append("label-only-line")
             continue
         t = stmt["t"]
         if t == "section":
@@ -481,6 +487,67 @@ def _task(task: Tuple[str, int, int, int, float]) -> Report:
     return rep
 
 
+_XPROC_HELPER = ("import sys, json\n"
+                 "from vp_harness import c10_model as M\n"
+                 "print(json.dumps([M.fresh_assemble(s) for s in json.load(sys.stdin)]))\n")
+
+
+def evaluate_xproc(progs: List[Dict[str, Any]], hashseed: int, rep: Report) -> List[Violation]:
+    """Same sources assembled in a separate interpreter with another PYTHONHASHSEED must give the same results."""
+    import json
+    import os
+    import subprocess
+    import sys
+
+    srcs = [M.render_program(p, split_pairs=True)[0] for p in progs]
+    here = [M.fresh_assemble(x) for x in srcs]
+    env = dict(os.environ)
+    env["PYTHONHASHSEED"] = str(hashseed)
+    try:
+        out = subprocess.run([sys.executable, "-c", _XPROC_HELPER], input=json.dumps(srcs), capture_output=True,
+                             text=True, env=env, timeout=600)
+        there = json.loads(out.stdout.strip().splitlines()[-1])
+    except Exception as exc:  # infrastructure, not a verdict
+        raise HarnessError(f"cross-process helper failed: {exc!r}")
+    viols: List[Violation] = []
+    for p, a, b in zip(progs, here, there):
+        ok = a == b or (not a["ok"] and not b["ok"] and a["error"].splitlines()[0] == b["error"].splitlines()[0])
+        if not ok:
+            v = Violation("determinism", "separate process with another hash seed",
+                          "result differs between two interpreter processes",
+                          {"kind": "xproc", "programs": [p], "hashseed": hashseed},
+                          f"here {str(a)[:150]} ; there {str(b)[:150]}")
+            viols.append(v)
+            rep.violate(v)
+        rep.case(None, ["cross-process"], None)
+    return viols
+
+
+def _xproc_task(task: Tuple[int, int]) -> Report:
+    seed, n = task
+    import hypothesis
+    from hypothesis import given
+
+    _ensure_palette()
+    programs, _ = _strategies()
+    rep = Report()
+    progs: List[Dict[str, Any]] = []
+
+    @hypothesis.seed(seed)
+    @_hyp_settings(n)
+    @given(programs(10))
+    def prop(prog: Dict[str, Any]) -> None:
+        progs.append(prog)
+
+    prop()
+    evaluate_xproc(progs, 1 + seed % 4093, rep)
+    return rep
+
+
+def _any_task(task: Any) -> Report:
+    return _xproc_task(task[1:]) if task[0] == "xproc" else _task(task)
+
+
 def _probe_task(chunk: List[str]) -> List[Dict[str, Any]]:
     return S.probe_many(chunk)
 
@@ -504,17 +571,19 @@ def run(ctx: Ctx) -> Report:
     if len(_PALETTE) < 100 or not _PAL_NEAR or not _PAL_SYM:
         raise HarnessError(f"instruction palette collapsed: {len(_PALETTE)} of {len(cands)} shapes assemble standalone")
 
-    n_prog = ctx.pick(640, 12800)
-    n_hist = ctx.pick(160, 2400)
+    n_prog = ctx.pick(640, 6400)
+    n_hist = ctx.pick(160, 1280)
     shards = ctx.pick(32, 64)
     hshards = ctx.pick(16, 32)
-    budget = ctx.pick(90.0, 800.0)
+    budget = ctx.pick(90.0, 480.0)
     tasks: List[Tuple[str, int, int, int, float]] = []
     for i in range(shards):
         tasks.append(("prog", ctx.shard_seed(i), n_prog // shards, 14 if i % 4 else 40, budget))
     for i in range(hshards):
         tasks.append(("hist", ctx.shard_seed(1000 + i), n_hist // hshards, 8, budget))
-    rep = ctx.merge_reports(ctx.pmap(_task, tasks))
+    for i in range(ctx.pick(1, 4)):
+        tasks.append(("xproc", ctx.shard_seed(2000 + i), ctx.pick(24, 60)))  # type: ignore[arg-type]
+    rep = ctx.merge_reports(ctx.pmap(_any_task, tasks))
     rep.rule = RULE
     rep.extra["palette_candidates"] = len(cands)
     rep.extra["palette_accepted"] = len(_PALETTE)
@@ -554,6 +623,8 @@ def replay(ctx: Ctx, case: Dict[str, Any]) -> List[Violation]:
     rep = Report()
     if case.get("kind") == "history":
         return evaluate_history(case, rep)
+    if case.get("kind") == "xproc":
+        return evaluate_xproc(case["programs"], int(case["hashseed"]), rep)
     return evaluate_program(case, rep)
 
 
@@ -587,6 +658,8 @@ def shrink(ctx: Ctx, v: Violation) -> Violation:
         return None
 
     case = copy.deepcopy(v.case)
+    if case.get("kind") == "xproc":
+        return v
     if case.get("kind") == "history":
         changed = True
         while changed and time.time() - t0 < limit:
